@@ -87,6 +87,13 @@ func init() {
 				o.WReload = 8
 				o.FailProb = 0
 			}
+			if c.Idx%8 == 6 {
+				// saves with retention must not lose or strand waiting jobs
+				o.StoreDir = c.TmpDir
+				o.Retention = true
+				o.WSave = 14
+				o.Pipe.CyclicProb = 0
+			}
 			return histCase(c, o, 400)
 		},
 		MinDistinct: 20,
@@ -479,7 +486,7 @@ func init() {
 				return simpleCase(c, drv.RunBinaryCase(c.Seed, bin, c.TmpDir, (c.Idx-nPersist)%2 == 1), 1)
 			}
 			k := c.Idx - nPersist - nBin
-			o := drv.ShutdownOpts{Forced: k%2 == 1, SlowSave: (k/2)%2 == 0, Clients: (k/4)%4 != 3, HTTP: (k/16)%2 == 0, NoStore: k%32 == 31}
+			o := drv.ShutdownOpts{Forced: k%2 == 1, SlowSave: (k/2)%2 == 0, Clients: (k/4)%4 != 3, HTTP: (k/16)%2 == 0, NoStore: k%32 == 31, NoFinisher: k%2 == 1 && (k/8)%2 == 0}
 			return simpleCase(c, drv.RunShutdownCase(c.Seed, o), 150)
 		},
 		MinDistinct:   25,
